@@ -8,6 +8,7 @@ rule: inserting a key that is not yet present into a set that already holds `cap
 reports failure (`full`) and changes nothing.
 -/
 import Tetl.C09.Model
+import Tetl.C06.Spec
 namespace Tetl.C09.Spec
 open Tetl.C09
 
@@ -73,6 +74,23 @@ def insertHint (lt : α → α → Bool) (cap : Nat) (l : List α) (_hint : Nat)
   let l' := (insert lt cap l k).1
   (l', find lt l' k)
 
+/-- `erase_if(c, pred)` ([associative.erasure] / [flat.set.erasure]): the elements satisfying `pred` go; returns how many went -/
+def eraseIf (p : α → Bool) (l : List α) : List α × Nat := (l.filter (fun x => !p x), l.countP p)
+
+/-- the relational operators of `std::set` ([container.requirements], [container.opt.reqmts]): `==` is "same length and equal
+    element by element" (element `operator==`), `<` is `std::lexicographical_compare` of the two iteration sequences with
+    element `operator<` (NOT the comparator of the set); the other four are derived.  Order: `==`, `!=`, `<`, `<=`, `>`, `>=`. -/
+def relOps (e : Elem α) (a b : List α) : List Bool :=
+  let eq := Tetl.C06.Spec.equal e.eq a b
+  let lt := Tetl.C06.Spec.lexLt e.lt a b
+  let gt := Tetl.C06.Spec.lexLt e.lt b a
+  [eq, !eq, lt, !gt, gt, !lt]
+
+/-- `size()` = number of elements, `empty()` = "no elements", `full()` (fixed-capacity static_set only) = "holds `cap` elements",
+    `max_size()` = the capacity -/
+def sizes (isSet : Bool) (cap : Nat) (l : List α) : XOut α :=
+  .sizes l.length l.isEmpty (if isSet then some (l.length == cap) else none) cap
+
 /-- documented preconditions of the operations of a history (everything else is total) -/
 def valid (cap : Nat) (lt : α → α → Bool) (s : St α) : Op α κ → Bool
   | .insertHint pos _ => pos ≤ s.cur.length                 -- a valid iterator of *this
@@ -110,6 +128,25 @@ def validRun (isSet : Bool) (lt : α → α → Bool) (h : Het α κ) (cap : Nat
   | s, op :: ops =>
     valid cap lt s op && (match op with | .extract | .replace _ | .insertHint _ _ => !isSet | _ => true)
       && validRun isSet lt h cap (step isSet lt h cap s op).1 ops
+
+/-! #### extended histories (`XOp`): the three additions have no precondition -/
+
+def xvalid (cap : Nat) (lt : α → α → Bool) (s : St α) : XOp α κ → Bool
+  | .base op => valid cap lt s op
+  | _ => true
+
+def xstep (isSet : Bool) (lt : α → α → Bool) (h : Het α κ) (e : Elem α) (cap : Nat) (s : St α) : XOp α κ → St α × XOut α
+  | .base op => let r := step isSet lt h cap s op; (r.1, .base r.2)
+  | .eraseIf p => let r := eraseIf p s.cur; ({ s with cur := r.1 }, .base (.num r.2))
+  | .cmp => (s, .bools (relOps e s.cur s.other))
+  | .sizes => (s, sizes isSet cap s.cur)
+
+def xrun (isSet : Bool) (lt : α → α → Bool) (h : Het α κ) (e : Elem α) (cap : Nat) : St α → List (XOp α κ) → St α × List (XOut α)
+  | s, [] => (s, [])
+  | s, op :: ops =>
+    let r := xstep isSet lt h e cap s op
+    let r2 := xrun isSet lt h e cap r.1 ops
+    (r2.1, r.2 :: r2.2)
 
 /-- sorted w.r.t. the comparator and unique, as a decidable predicate: strictly ascending -/
 def sortedUnique (lt : α → α → Bool) (c : List α) : Bool := decide (c.Pairwise (fun a b => lt a b = true))
